@@ -19,6 +19,7 @@ def install(reg):
     install_dict_specs(reg)
     install_config_specs(reg)
     install_value_specs(reg)
+    install_magnet_specs(reg)
     from pyvc import fsmodel
     fsmodel.install(reg)
     fsmodel.install_more(reg)
@@ -240,6 +241,12 @@ def install_value_specs(reg):
         return VBool(isinstance(v, VInt))
     SF["is_int"] = s_is_int
 
+    def s_is_bool(p, v):
+        if isinstance(v, VBox):
+            return VBool(PV.is_PBool(v.t))
+        return VBool(isinstance(v, VBool))
+    SF["is_bool"] = s_is_bool
+
     def s_is_none(p, v):
         if isinstance(v, VBox):
             return VBool(PV.is_PNone(v.t))
@@ -285,3 +292,42 @@ def install_value_specs(reg):
     def s_basename_abspath(p, path):
         return VStr(p.engine.uf("basename", S, S)(p.engine.uf("abspath", S, S)(_str_t(p, path))))
     SF["basename_abspath"] = s_basename_abspath
+
+
+def install_magnet_specs(reg):
+    SF = reg.spec_funcs
+
+    def _seq(p, v):
+        if isinstance(v, VBox):
+            return PV.items(v.t)
+        h = p.deref(v)
+        if isinstance(h, HList):
+            return p.list_seq(h)
+        return p.fresh("not_a_list", PVSEQ)
+
+    def s_flatten(p, v):
+        return VBox(PV.PList(p.engine.uf("flatten", PVSEQ, PVSEQ)(_seq(p, v))))
+    SF["flatten"] = s_flatten
+
+    def s_join_map(p, prefix, urls):
+        """"".join(prefix + quote_plus(u) for u in urls)"""
+        seq = _seq(p, urls)
+        Q = p.engine.uf("quote_plus", S, S)
+        pre = _str_t(p, prefix)
+        h = HList(rule=(z3.Length(seq), lambda i: VStr(z3.Concat(pre, Q(PV.sval(seq[i]))))))
+        ref = p.alloc(h)
+        join = p.engine.uf("str_join", S, PVSEQ, S)
+        return VStr(join(z3.StringVal(""), p.list_seq(h)))
+    SF["join_map"] = s_join_map
+
+    def s_quote_plus(p, s):
+        return VStr(p.engine.uf("quote_plus", S, S)(_str_t(p, s)))
+    SF["quote_plus"] = s_quote_plus
+
+    def s_sha1hex(p, b):
+        return VStr(p.engine.uf("sha1hex", BYTES, S)(p.bytes_term(b) if not isinstance(b, VBox) else PV.yval(b.t)))
+    SF["sha1hex"] = s_sha1hex
+
+    def s_sha256hex(p, b):
+        return VStr(p.engine.uf("sha256hex", BYTES, S)(p.bytes_term(b) if not isinstance(b, VBox) else PV.yval(b.t)))
+    SF["sha256hex"] = s_sha256hex
